@@ -75,6 +75,20 @@ CLAIMED["C01"] = dict(
          "until then that step is covered by the exhaustive correspondence and the executed decoder, not by a theorem.",
 )
 
+CLAIMED["C13"] = dict(
+    text="Theorems about the model of formats.py/bk_wav.py: raw is the bytes; bin is base and length as little-endian words then the bytes "
+         "(and refuses what does not fit); the WAV file parses, by an independent RIFF reader, as 8-bit mono PCM whose data chunk is exactly "
+         "the pulse train, for every data length and rate; the stored checksum equals the BK-0010 end-around-carry sum for every block "
+         "(induction); bits are emitted LSB first (complete evaluation over all bytes); the tape header is base, length, 16-byte name; the "
+         "regenerated pulse shapes are read by the independent pulse detector as (sync, short)=0, (sync, long)=1, 8-sample marker, pilots. "
+         "Tie: file_formats on images incl. byte sums that are multiples of 65535 compared with the model (length + hash of the whole file), "
+         "every WAV demodulated by the executable Lean BK-0010/turbo demodulator, every output selector and path form through main_cli.",
+    design_ref="DESIGN.md §5 C13",
+    technique="Lean 4 theorems (induction, omega, decide +kernel on regenerated shapes) + whole-file model/implementation correspondence + executable Spec demodulator",
+    note=NOTE + "The general theorem demod(encode(image)) = image for all images is not proved (stage 2); the demodulator is executed on every "
+         "generated file instead. Path derivations are judged directly on CLI runs (os.path taken as given), not modelled in Lean.",
+)
+
 PENDING_REASON = "check not built yet (build in progress; see DESIGN.md §8 for the order)"
 
 
